@@ -257,6 +257,20 @@ def check(ctx):
             ann.append({"exp": ce["eb"], "buf": c04.tpl_msg(proto, 300, 2)})
             ann.append({"exp": ce["ea"], "buf": c04.tpl_msg(proto, 300, 0)})
             probes.append(({"exp": ce["eb"], "buf": c04.data_msg(proto, 300)}, 2))
+        # a template id below 256 (reserved, but no decoder refuses it) and, for NetFlow v9, a template flowset padded with
+        # eight zero octets (read as "template 0 without fields"): whatever they leave in the cache, the file it is saved to
+        # must still give every other exporter its templates back
+        ann.append({"exp": [172, 16, 0, 7], "buf": c04.tpl_msg(proto, 200, 1)})
+        if proto == "v9":
+            rec = c04.u16(777) + c04.u16(1) + c04.u16(8) + c04.u16(4)
+            ann.append({"exp": [172, 16, 0, 7], "buf": [0, 9, 0, 1] + [0] * 16 + c04.u16(0) + c04.u16(4 + len(rec) + 8) + rec + [0] * 8})
+        if proto == "ipfix":
+            # a template with a variable-length field: what decodes its data is more than the field list
+            vt = c04.u16(2) + c04.u16(4 + 4 + 8) + c04.u16(310) + c04.u16(2) + c04.u16(82) + c04.u16(65535) + c04.u16(4) + c04.u16(1)
+            ann.append({"exp": exps[0], "buf": [0, 10] + c04.u16(16 + len(vt)) + [0] * 12 + vt})
+            vd = c04.u16(310) + c04.u16(4 + 6 + 11) + [4, 101, 116, 104, 48, 6] + [9] + [ord(c) for c in "loopback0"] + [17]
+            probes.append(({"exp": exps[0], "buf": [0, 10] + c04.u16(16 + len(vd)) + [0] * 12 + vd},
+                           [[(82, (101, 116, 104, 48)), (4, (6,))], [(82, tuple(ord(c) for c in "loopback0")), (4, (17,))]]))
         for k, v in enumerate((3, 4, 5)):
             ann.append({"exp": exps[k % len(exps)], "buf": c04.tpl_msg(proto, 2000 + k, v)})
             probes.append(({"exp": exps[k % len(exps)], "buf": c04.data_msg(proto, 2000 + k)}, v))
@@ -275,7 +289,7 @@ def check(ctx):
             ctx.violation("%s: filling and dumping the cache failed: %s" % (name, first.get("killed") or first.get("dump")), {})
             continue
         base = first["res"][len(ann) + len(extra):]
-        want = [c04.expected_recs(v) for _, v in probes]
+        want = [c04.expected_recs(v) if isinstance(v, int) else v for _, v in probes]
         got0 = [[[(f["i"], tuple(f["v"]["o"])) for f in rec] for rec in x["recs"]] for x in base]
         if got0 != want:
             raise vlib.Infra("baseline answers before the dump are not the announced templates (C04's business)")
@@ -284,6 +298,15 @@ def check(ctx):
         ctx.extra.setdefault("file_octets", {})[proto] = len(raw)
         loads = []          # (label, path or None, kind)
         loads.append(("intact", f0, "same"))
+        # the same file found again after a while: saved 45 minutes, two days, decades ago (nothing in the statement makes the
+        # templates of a saved cache expire)
+        import time as _time
+        for label, age in (("45min", 2700), ("2days", 172800), ("epoch", None)):
+            dd = copy.deepcopy(doc)
+            for sh in dd["Cache"]:
+                for e in (sh["Templates"] or {}).values():
+                    e["Timestamp"] = int(_time.time()) - age if age else 1
+            loads.append(("aged:" + label, json.dumps(dd).encode(), "same"))
         step = 1 if (thorough or proto == "ipfix") else 3
         for k in range(0, len(raw), step):
             loads.append(("prefix:%d" % k, raw[:k], "any"))
